@@ -227,5 +227,5 @@ pub fn run(ctx: &Ctx) {
     ctx.assume("the claim is limited to these families and ranges; it says nothing about global convergence");
     ctx.assume("a failing instance is attributed to KF-1 only if the dependency's SVD reconstruction error exceeded 16 eps somewhere on the optimizer's trajectory");
     let t = ctx.tier;
-    ctx.run_cases("families", t.pick(12000, 100000), t.pick(20.0, 200.0), |r, c, o| if c % 4 == 0 { fit_case::<f32>(r, c, o) } else { fit_case::<f64>(r, c, o) });
+    ctx.run_cases("families", t.pick(12000, 600000), t.pick(20.0, 900.0), |r, c, o| if c % 4 == 0 { fit_case::<f32>(r, c, o) } else { fit_case::<f64>(r, c, o) });
 }
